@@ -34,6 +34,7 @@
 -/
 import BufrModel.Lemmas.TextFlat
 import BufrModel.Lemmas.TextTree
+import BufrModel.Lemmas.TextSplit
 import BufrModel.Props.C09
 namespace Bufr
 open Bufr.C09T
@@ -247,6 +248,23 @@ theorem C09_nested_text_section_header_stops (ev : Line → Option PyLit) (tail 
   have e : sectionMark ++ tail ++ [c] = [] ++ ('<' :: ((['<', '<', '<', '<', '<'] ++ tail) ++ [c])) := by simp [sectionMark]
   rw [e, norm_cons [] _ '<' indentOK_nil (by decide) (by decide), pyRstrip_concat _ c hc]
   simp [startsWith_cons, sectionMark, startsWith_nil_left]
+
+/-! ### lines <-> one string -/
+
+/-- the renderers join their lines with `\n`, the converters cut the text with `splitlines()`: the lines come
+    back when no line holds one of the ten line boundaries of `str.splitlines` and the last line is not empty
+    (decidable, `linesOK`; evaluated per case by the driver on the rendered lines).  The side condition is
+    needed: see the `example` with a name that holds a line feed below. -/
+theorem C09_text_lines_roundtrip (ls : List Line) (h : linesOK ls = true) : pySplitlines (joinLines ls) = ls := by
+  obtain ⟨h1, h2⟩ := linesOK_iff ls h
+  exact split_join ls h1 h2
+
+/-- where a line boundary in a flat text line can come from: the descriptor text (i.e. the element name) or the
+    value token - the index column, the padding and the link column never hold one -/
+theorem C09_flat_text_line_no_linebreak (env : TextEnv) (links : List (Nat × Nat)) (idx : Nat) (d : DDesc) (v : Val)
+    (hd : ∀ c ∈ flatDescText env d, isLineBreak c = false) (ht : ∀ c ∈ flatTok env d v, isLineBreak c = false) :
+    ∀ c ∈ flatLine env links idx d v, isLineBreak c = false :=
+  flatLine_nobreak env links idx d v hd ht
 
 /-! ### non-vacuity: a concrete `repr` / `literal_eval` pair and concrete messages -/
 
@@ -491,6 +509,23 @@ example : (wireRaw [.op 204004, .elem (exE 31021 6), .elem (exE 12001 12)] exBad
 example : ((wire [.op 204004, .elem (exE 31021 6), .elem (exE 12001 12)] exBadDeep >>= fun tree => nestedTextLines exEnv [exBadDeep] [tree]) >>=
       fun lines => nestedTextToFlat exEv (lines ++ [exHdr])) =
     .ok ([exHdr], [[.val (.int 1), .val (.int 5), .val (.int 1), .val (.int 280)]]) := by decide +kernel
+
+/-- without `linesOK` (potential finding, notes/C09Text_repro_name_linebreak.py): an element NAME that holds a line
+    feed.  The lines themselves convert back, the joined and re-split text does not (the second half of the name
+    becomes a line of its own, which the flat text converter slices at column 81 and fails to evaluate). -/
+def exEnvLF : TextEnv := { exEnv with name := fun _ => "AIR\nTEMPERATURE".toList }
+
+def exLF : List SubsetOut := [{ descs := [.plain (exE 12001 12)], vals := [.int 280], links := [] }]
+
+example : linesOK (flatTextLines exEnvLF exLF ++ [exHdr]) = false ∧
+    flatTextToFlat exEv PyLit.untuple (flatTextLines exEnvLF exLF ++ [exHdr]) = .ok ([exHdr], [[.val (.int 280)]]) ∧
+    flatTextToFlat exEv PyLit.untuple (pySplitlines (joinLines (flatTextLines exEnvLF exLF ++ [exHdr]))) = .error .other := by
+  decide +kernel
+
+/-- with `linesOK`: the example messages above survive the join / split -/
+example : linesOK (flatTextLines exEnv exFlatOuts ++ [exHdr]) = true ∧
+    pySplitlines (joinLines (flatTextLines exEnv exFlatOuts ++ [exHdr])) = flatTextLines exEnv exFlatOuts ++ [exHdr] := by
+  decide +kernel
 
 /-- without `ReprOK.plain_tok` (a token with a blank): `rsplit(' ', 1)[1]` cuts the token -/
 example : ntToken ("001001 NAME 1 000".toList) = "000".toList := by decide +kernel
